@@ -948,6 +948,12 @@ class Engine:
             if isinstance(h, HObj):
                 if name in h.attrs:
                     return [(h.attrs[name], st)]
+                real_cls = self._real_class(h.cls)
+                if real_cls is not None and hasattr(real_cls, name):
+                    member = getattr(real_cls, name)
+                    if callable(member):
+                        return [(Partial(Native(member), (v,), {}), st)]  # a method of the instance's class (repo source is inlined, library methods are modelled)
+                    return [(self.lift(member), st)]
                 return [(Raise(Exc("AttributeError", name)), st)]
             return [(BoundMethod(v, name), st)]
         if isinstance(v, Const):
@@ -1019,6 +1025,19 @@ class Engine:
             return self.bind(self.ev_list([k.value for k in node.keywords], s2), after_kw)
 
         return self.bind(self.ev_list(node.args, st), after_args)
+
+    @staticmethod
+    def _real_class(cls_name):
+        """the real class behind a modelled instance ('ast.Name', 'doctrans.emitter_utils.RewriteName'), if it can be imported"""
+        if not cls_name or not isinstance(cls_name, str) or "." not in cls_name:
+            return None
+        modname, _, cname = cls_name.rpartition(".")
+        try:
+            import importlib
+
+            return getattr(importlib.import_module(modname), cname, None)
+        except Exception:  # noqa
+            return None
 
     def opaque_apply(self, name, args, kwargs, s3):
         spec = self.opaque[name]
